@@ -252,6 +252,8 @@ func (storage *MsgStorage) PurgeQueue(queue string) {
 // Close properly "stop" message storage
 func (storage *MsgStorage) Close() error {
 	storage.closeCh <- true
+	// a stop is not a crash: write out what was added, updated and deleted since the last tick
+	storage.persist()
 	storage.persistLock.Lock()
 	defer storage.persistLock.Unlock()
 	return storage.db.Close()
